@@ -8,12 +8,24 @@ External tables the model needs (ast.unparse of annotations, ast.parse of wrappe
 of --input-eval) are computed here, independently of doctrans.
 Frame: the input file's bytes and the two parameter lists must be unchanged by the call.
 A case may carry a seventh argument `same_file`: input and output are then ONE file (two locations of one module);
-the model is asked the same question as for two files with equal text (the code parses the file twice)."""
+the model is asked the same question as for two files with equal text (the code parses the file twice).
+A case may carry two more keys (not arguments: the model is asked about the call itself, whatever way it is made):
+  route    how the call is made: None / "api" = doctrans.sync_properties.sync_properties(...); "cli" = the command line
+           doctrans.__main__.main(["sync_properties", ...]) with one --input-param / --output-param per pair (pair by
+           pair), "cli-grouped" = the same with every --input-param before every --output-param; "cli-subprocess" =
+           `python -m doctrans sync_properties ...` in a process of its own (oracle only)
+  history  earlier calls [{"args": [...], "route": ..., "out": "same" | "other"}] made IN THE SAME PROCESS on the same
+           input path (and, for "same", the same output path) before the files are given the text of the case and the
+           case's own call is made: a build script that synchronises several files from one settings module, a file
+           that is edited or restored between two runs.  Each call works on the files as they are when it starts."""
 import ast
+import contextlib
 import copy
 import inspect
 import os
 import shutil
+import subprocess
+import sys
 import tempfile
 
 from common import Sym, dumps, opt, outcome, impl, exc_kind, enc_pyval
@@ -55,6 +67,9 @@ SP_TEXT_INPUTS = [
 ]
 # how often the output module of a plain (not eval) call carries an odd docstring (see odd_docstring below)
 P_ODD_DOCSTRING = 0.07
+# how often a call is made through the command line, and how often it is preceded by other calls in the same process
+P_CLI = 0.25
+P_HISTORY = 0.14
 SP_TEXT_OUTPUTS = [
     "BANNER = \"\"\"Usage:\n    \n  run --fast\n\"\"\"\ndef g(c: int, d: str = 'dd'):\n    \"\"\"g doc\"\"\"\n    print('''\n \t\n    indented\n\t''')\n    return c, BANNER\n"
     "class D:\n    x: int = 0\n    TABLE = '''a\tb\n\t\n1\t2'''\n    def m(self, x, y=2): pass\n",
@@ -207,6 +222,110 @@ def env_tables(exprs, wrap, rounds):
     return [list(U.values()), list(P.values())]
 
 
+# ------------------------------------------------------------------ how a call is made (API / command line), histories
+def cli_argv(ev, ipath, ips, opath, ops, wrap, grouped=False):
+    """the command line of one sync_properties call (without the program name)"""
+    def opt_(flag, value):
+        # a value that starts with a dash would be read as an option: the `--flag=value` spelling says what is meant
+        return [flag + "=" + value] if value.startswith("-") else [flag, value]
+
+    argv = ["sync_properties", "--input-filename", ipath, "--output-filename", opath]
+    if grouped:
+        for ip in ips:
+            argv += opt_("--input-param", ip)
+        for op in ops:
+            argv += opt_("--output-param", op)
+    else:
+        for k in range(max(len(ips), len(ops))):
+            if k < len(ips):
+                argv += opt_("--input-param", ips[k])
+            if k < len(ops):
+                argv += opt_("--output-param", ops[k])
+    if ev:
+        argv.append("--input-eval")
+    if wrap is not None:
+        argv += opt_("--output-param-wrap", wrap)
+    return argv
+
+
+def invoke(m, route, ev, ipath, ips, opath, ops, wrap):
+    """make the call; returns None or the name of the way it failed (an exception kind; SystemExit = the usage error
+    of the command line; exit-N = the exit status of the process)"""
+    try:
+        if route in (None, "api"):
+            m.sync_properties.sync_properties(ev, ipath, ips, opath, ops, wrap)
+        elif route in ("cli", "cli-grouped"):
+            with open(os.devnull, "w") as null, contextlib.redirect_stderr(null), contextlib.redirect_stdout(null):
+                m.main_mod.main(cli_argv(ev, ipath, list(ips), opath, list(ops), wrap, grouped=route == "cli-grouped"))
+        elif route == "cli-subprocess":
+            p = subprocess.run([sys.executable, "-m", "doctrans"] + cli_argv(ev, ipath, list(ips), opath, list(ops), wrap),
+                               stdout=subprocess.DEVNULL, stderr=subprocess.DEVNULL, stdin=subprocess.DEVNULL,
+                               cwd=os.path.dirname(opath), timeout=120)
+            return None if p.returncode == 0 else "exit-%d" % p.returncode
+        else:
+            raise KeyError(route)
+    except (Exception, SystemExit) as e:  # noqa
+        return "SystemExit" if isinstance(e, SystemExit) else exc_kind(e)
+    return None
+
+
+def play_history(m, d, history, ipath, opath):
+    """the earlier calls of a case, on the case's input path; their outcome is not looked at"""
+    for k, h in enumerate(history or []):
+        a = h["args"]
+        h_same_file = len(a) > 6 and bool(a[6])
+        h_opath = opath if h.get("out", "same") == "same" else os.path.join(d, "output_prev_%d.py" % k)
+        h_ipath = h_opath if h_same_file else ipath
+        with open(h_opath, "wb") as f:
+            f.write(a[3].encode("utf-8"))
+        if not h_same_file:
+            with open(h_ipath, "wb") as f:
+                f.write(a[1].encode("utf-8"))
+        invoke(m, h.get("route"), a[0], h_ipath, list(a[2]), h_opath, list(a[4]), a[5])
+
+
+def edit_input(rng, src, params):
+    """the module as it reads before / after somebody edited one of the addressed definitions: another annotation, an
+    annotation where there was none, another value; a line added when nothing addressed is found.  -> text (parses)"""
+    try:
+        tree = ast.parse(src)
+    except SyntaxError:
+        return src
+    lines = src.split("\n")
+
+    def splice(node, text):
+        if node.lineno != node.end_lineno:
+            return None
+        ln = lines[node.lineno - 1]
+        out = list(lines)
+        out[node.lineno - 1] = ln[:node.col_offset] + text + ln[node.end_col_offset:]
+        return "\n".join(out)
+
+    cands = [n for n in (GM.resolve([s.strip() for s in p.split(".")], tree) for p in params) if n is not None]
+    rng.shuffle(cands)
+    for n in cands:
+        new = None
+        if isinstance(n, (ast.arg, ast.AnnAssign)) and n.annotation is not None:
+            old = ast.unparse(n.annotation)
+            new = splice(n.annotation, rng.choice([a for a in GM.ANNS if a != old]))
+        elif isinstance(n, ast.arg):
+            if n.lineno == n.end_lineno:
+                ln = lines[n.lineno - 1]
+                out = list(lines)
+                out[n.lineno - 1] = ln[:n.end_col_offset] + ": " + rng.choice(GM.ANNS) + ln[n.end_col_offset:]
+                new = "\n".join(out)
+        elif isinstance(n, ast.Assign):
+            old = ast.unparse(n.value)
+            new = splice(n.value, rng.choice([v for v in GM.DEFAULTS if v != old]))
+        if new is not None and new != src:
+            try:
+                ast.parse(new)
+                return new
+            except SyntaxError:
+                pass
+    return src + ("" if src.endswith("\n") or not src else "\n") + "edited_%d: int = %d\n" % (rng.randint(0, 9), rng.randint(0, 9))
+
+
 # ------------------------------------------------------------------ generation
 def _leaf_locs(tree, containers=False, kind=None):
     """dotted locations; kind: None = all leaves, 'arg' = function arguments, 'stmt' = assignments"""
@@ -225,6 +344,48 @@ def gen(rng, n, tier="quick"):
 
     def add(fn, args, *tags):
         cases.append({"fam": NAME, "fn": fn, "args": args, "tags": list(tags)})
+
+    def history_for(args):
+        """1..2 earlier calls in the same process on the same input path: the same call (into the same output path, whose
+        text is put back afterwards, or into another file); the same parameters into another output module; the call as
+        it was before the input file was edited; another input module altogether at that path"""
+        ev, isrc, ips, osrc, ops, wrap = args[:6]
+        same_file = len(args) > 6 and bool(args[6])
+        hist = []
+        for _ in range(rng.choice([1, 1, 2])):
+            kind = rng.choice(["same-call", "same-call", "other-output", "input-edited", "input-edited", "other-input"])
+            h_isrc, h_ips, h_osrc, h_ops = isrc, list(ips), osrc, list(ops)
+            if kind == "other-output" and not same_file:
+                h_osrc = module(SP_OUTPUTS)
+                olocs = _leaf_locs(ast.parse(h_osrc)) or ["g.x"]
+                h_ops = [rng.choice(olocs) for _ in ips]
+            elif kind == "input-edited":
+                h_isrc = edit_input(rng, isrc, ips)
+                if same_file:
+                    h_osrc = h_isrc
+            elif kind == "other-input" and not same_file and not ev:
+                h_isrc = module(SP_INPUTS)
+                ilocs = _leaf_locs(ast.parse(h_isrc)) or ["a"]
+                h_ips = [rng.choice(ilocs) for _ in ips]
+            h_wrap = wrap if rng.random() < 0.7 else (rng.choice(WRAPS[:3]) if rng.random() < 0.6 else None)
+            h = {"args": [ev, h_isrc, h_ips, h_osrc, h_ops, h_wrap] + ([True] if same_file else []),
+                 "route": rng.choice([None, None, None, "cli"]) if len(h_ips) == len(h_ops) else None,
+                 "out": "same" if same_file else rng.choice(["same", "other", "other"]), "kind": kind}
+            hist.append(h)
+        return hist
+
+    def add_call(args, *tags):
+        """a sync_properties call; some are made through the command line, some come after other calls in the process"""
+        case = {"fam": NAME, "fn": "sync_properties", "args": args, "tags": list(tags)}
+        if rng.random() < P_CLI and len(args[2]) == len(args[4]):
+            # (a different number of --input-param and --output-param is a usage error of the command line, SystemExit,
+            # where the function asserts: that difference between the two routes is not the model's subject)
+            case["route"] = rng.choice(["cli", "cli", "cli-grouped"])
+            case["tags"].append("route-" + case["route"])
+        if rng.random() < P_HISTORY:
+            case["history"] = history_for(args)
+            case["tags"].append("history-" + "+".join(h["kind"] for h in case["history"]))
+        cases.append(case)
 
     def module(pool):
         if rng.random() < 0.35:
@@ -327,10 +488,10 @@ def gen(rng, n, tier="quick"):
                        if isinstance(t, ast.Name)]
                 pool = (_leaf_locs(ast.parse(src), kind="stmt") if rng.random() < 0.7 else None) or _leaf_locs(ast.parse(src))
                 ips, ops = [rng.choice(own) for _ in range(k)], [rng.choice(pool) for _ in range(k)]
-                add("sync_properties", [True, src, ips, src, ops, wrap, True], "eval", "pairs-%d" % k,
+                add_call([True, src, ips, src, ops, wrap, True], "eval", "pairs-%d" % k,
                     "wrap" if wrap else "nowrap", "same-file")
                 continue
-            add("sync_properties", [True, isrc, ips, osrc, ops, wrap], "eval", "pairs-%d" % k,
+            add_call([True, isrc, ips, osrc, ops, wrap], "eval", "pairs-%d" % k,
                 "wrap" if wrap else "nowrap")
         elif r < 0.36:
             # one file, two locations of it (input file == output file)
@@ -343,7 +504,7 @@ def gen(rng, n, tier="quick"):
             ips, ops = choose_pairs(tree, tree, k)
             shape = pair_shape(ips, ops, tree, tree) if k >= 2 and rng.random() < 0.3 else None
             wrap = rng.choice(WRAPS[:3]) if rng.random() < 0.6 else None
-            add("sync_properties", [False, src, ips, src, ops, wrap, True], "noeval", "pairs-%d" % k,
+            add_call([False, src, ips, src, ops, wrap, True], "noeval", "pairs-%d" % k,
                 "wrap" if wrap else "nowrap", "same-file", *([shape] if shape else []),
                 *(["odd-docstring:" + odd] if odd else []))
         else:
@@ -366,7 +527,7 @@ def gen(rng, n, tier="quick"):
             wrap = None
             if rng.random() < 0.45:
                 wrap = rng.choice(WRAPS[:3]) if rng.random() < 0.8 else rng.choice(WRAPS)
-            add("sync_properties", [False, isrc, ips, osrc, ops, wrap], "noeval", "pairs-%d" % k,
+            add_call([False, isrc, ips, osrc, ops, wrap], "noeval", "pairs-%d" % k,
                 "wrap" if wrap else "nowrap", *([shape] if shape else []), *(["odd-docstring:" + odd] if odd else []))
     return cases[:n]
 
@@ -406,9 +567,10 @@ def request(case):
     raise KeyError(fn)
 
 
-def run_sync_properties(ev, isrc, ips, osrc, ops, wrap, same_file=False):
+def run_sync_properties(ev, isrc, ips, osrc, ops, wrap, same_file=False, route=None, history=None):
     """the real call on temporary files; returns (wire result, input bytes unchanged?, output text after).
-    same_file: input and output are one file holding `osrc` (the input bytes are then of course not expected to stay)"""
+    same_file: input and output are one file holding `osrc` (the input bytes are then of course not expected to stay)
+    route, history: see the module docstring (the earlier calls are made first, then the files get the case's text)"""
     m = impl()
     d = tempfile.mkdtemp(prefix="verif_syncprops_")
     captured = []
@@ -423,6 +585,7 @@ def run_sync_properties(ev, isrc, ips, osrc, ops, wrap, same_file=False):
         if same_file:
             assert isrc == osrc
             ipath = opath
+        play_history(m, d, history, ipath, opath)
         with open(ipath, "wb") as f:
             f.write(isrc.encode("utf-8"))
         with open(opath, "wb") as f:
@@ -430,10 +593,8 @@ def run_sync_properties(ev, isrc, ips, osrc, ops, wrap, same_file=False):
         ips0, ops0 = list(ips), list(ops)
         m.emit.file = hook
         try:
-            m.sync_properties.sync_properties(ev, ipath, ips, opath, ops, wrap)
-            status = [Sym("ok"), Sym("unit")]
-        except Exception as e:  # noqa
-            status = [Sym("err"), Sym(exc_kind(e))]
+            failed = invoke(m, route, ev, ipath, ips, opath, ops, wrap)
+            status = [Sym("ok"), Sym("unit")] if failed is None else [Sym("err"), Sym(failed)]
         finally:
             m.emit.file = real_file
         with open(ipath, "rb") as f:
@@ -473,7 +634,7 @@ def run_impl(case):
             return Enc(pos).amodule(t)
         return dumps(outcome(go, enc))
     if fn == "sync_properties":
-        wire, frame, _ = run_sync_properties(*a)
+        wire, frame, _ = run_sync_properties(*a, route=case.get("route"), history=copy.deepcopy(case.get("history")))
         if not frame:
             return dumps([Sym("frame-violation"), Sym("input-file-or-parameter-lists-changed")])
         return wire
